@@ -62,7 +62,7 @@ class SerialMonitor:
     def write(self, value: object) -> str:
         """Send ``value`` to the connected MCU via the serial monitor."""
 
-        text = f"{value}"
+        text = str(value)
         if self._serial is not None and self._serial.is_open:
             payload = (text + self.newline).encode("utf-8")
             self._serial.write(payload)
